@@ -424,6 +424,11 @@ where
         .filter(|x| !x.run_ends().is_empty())
         .collect();
 
+    // Every input is empty: the result is an empty run array
+    if run_arrays.is_empty() {
+        return Ok(new_empty_array(arrays[0].data_type()));
+    }
+
     // The run ends need to be adjusted by the sum of the lengths of the previous arrays.
     let needed_run_end_adjustments = std::iter::once(R::default_value())
         .chain(
